@@ -506,8 +506,20 @@ fn call(f: Func, args: &[Node], at: NV) -> R {
                     return RV::Val(NRef { v: NV::Int(m), typed: false }, Q::Exact);
                 }
             }
-            // a Float next to an Integer beyond 2^53: which of two values that round to the same double is
-            // smaller is not decided by the statements
+            // Integers and Floats mixed: min, max and the odd-count median are still one of the arguments, by the order of
+            // the exact values (an Integer beyond 2^53 and a Float that rounds to the same double are different numbers,
+            // and C11 makes the result independent of the order of the arguments)
+            if q == Q::Exact && (matches!(f, Min | Max) || (f == Med && vs.len() % 2 == 1)) {
+                let mut s: Vec<NV> = vs.iter().map(|v| v.v).collect();
+                s.sort_by(|a, b| cmp_nv(*a, *b));
+                let pick = match f {
+                    Min => s[0],
+                    Max => s[s.len() - 1],
+                    _ => s[s.len() / 2],
+                };
+                return RV::Val(NRef { v: pick, typed: false }, Q::Exact);
+            }
+            // means over values beyond 2^53 go through doubles in an order the statements do not fix
             if vs.iter().any(|v| v.v.f().abs() >= 9007199254740992.0) {
                 return RV::Unspec("U3: aggregate over mixed magnitudes >= 2^53");
             }
@@ -552,6 +564,36 @@ fn call(f: Func, args: &[Node], at: NV) -> R {
     }
 }
 
+/// order of the exact values of two finite numbers
+fn cmp_nv(a: NV, b: NV) -> std::cmp::Ordering {
+    use std::cmp::Ordering;
+    fn int_float(i: i64, x: f64) -> Ordering {
+        if x >= 1e30 {
+            return Ordering::Less;
+        }
+        if x <= -1e30 {
+            return Ordering::Greater;
+        }
+        let fl = x.floor();
+        match (i as i128).cmp(&(fl as i128)) {
+            Ordering::Equal => {
+                if x > fl {
+                    Ordering::Less
+                } else {
+                    Ordering::Equal
+                }
+            }
+            o => o,
+        }
+    }
+    match (a, b) {
+        (NV::Int(x), NV::Int(y)) => x.cmp(&y),
+        (NV::Int(x), NV::Float(y)) => int_float(x, y),
+        (NV::Float(x), NV::Int(y)) => int_float(y, x).reverse(),
+        (NV::Float(x), NV::Float(y)) => x.partial_cmp(&y).unwrap_or(Ordering::Equal),
+    }
+}
+
 /// compare a subject Number (given as NV) with the reference
 pub fn matches(got: NV, want: NRef, q: Q) -> bool {
     if q == Q::Skip {
@@ -572,6 +614,7 @@ pub fn matches(got: NV, want: NRef, q: Q) -> bool {
                 // beyond 2^53 `n as f64` would round: compare the integers themselves
                 (NV::Int(n), NV::Float(x)) => x.is_finite() && x.fract() == 0.0 && x.abs() < 1e30 && (x as i128) == n as i128,
                 (NV::Int(n), NV::Int(m)) => n == m,
+                (NV::Float(x), NV::Int(m)) => x.is_finite() && x.fract() == 0.0 && x.abs() < 1e30 && (x as i128) == m as i128,
                 _ => g == w || (g.is_nan() && w.is_nan()),
             },
             _ => f64_matches(g, w, q),
